@@ -210,6 +210,8 @@ class ComplexS(metaclass = Singleton):
             if len(sequence) != len(structure):
                 raise ObjectInitError('Complex initialization error: ' + \
                                      f'{len(sequence)} != {len(structure)}.')
+            if len(make_strand_table(sequence)) == 0:
+                raise ObjectInitError('Complex initialization error: no strands.')
             cdict = {} # Find canonical form.
             rseq, rstr = sequence, structure
             for e in range(len(make_strand_table(sequence))):
